@@ -1,4 +1,5 @@
 import SstModel
+import SstModel.Lemmas.FaultyWitness
 import Driver.Proto
 import Driver.Cmds
 /- Driver commands exposing the Spec (expected answers) and the judges. -/
@@ -39,6 +40,12 @@ def handle (words : List String) : Option String :=
     let es ← parseEntries es
     let obs ← parseObs obs
     pure ((Judge.c04 c es hexOfBytes obs none 0).replace " " "_")
+  | ["no_short_collision", pol, img] => do
+    -- the decidable hypotheses of the C14 theorems, evaluated on the bytes of an image
+    -- (`C14_noShortCollision_checker`: true implies NoShortCollision / NoShortCollisionMeta)
+    let p ← parsePolicy pol
+    let img ← bytesOfHex img
+    pure s!"{noShortCollisionB img} {noShortCollisionMetaB p img}"
   | ["spec_decode", img] => do
     match Format.decodeTable (← bytesOfHex img) with
     | none => pure "none"
